@@ -384,7 +384,51 @@ def links_blocked_rule(ctx):
         if cb is None or cb.test or caller == b.fid:
             continue
         n += 1
-    ctx.floor('callers of update_links_blocked', n, 2)
+        eng.all_paths.add(caller)
+        ca = eng.analysis(cb)
+        if ca.exit_state is None:
+            ctx.unproved(R, caller + '|head', 'caller not analysable', ctx.where(cb)); continue
+        heads = [c for c in ca.calls if c.targets and any(t.endswith('DispAuth::train_idx_curr') for t in c.targets)]
+        k = 0
+        for c in ca.calls:
+            if not (c.targets and b.fid in c.targets) or not c.argvals or len(c.argvals) != 4:
+                continue
+            k += 1
+            key = '%s|head%s' % (caller, '' if k == 1 else ' #%d' % k)
+            la, tr = c.argvals[2], c.argvals[3]
+            lidx = ('pre', la[1] + (('f', 'idx'),)) if la[0] == 'pre' else ('proj', la, ('f', 'idx'))
+            good = None
+            for h in heads:
+                if h.result != tr or not h.argvals:
+                    continue
+                r = h.argvals[0]
+                pth = r[1] if r[0] == 'ref' else None
+                if not pth or len(pth) != 3 or pth[0] != ('obj', cb.params[1][0]) or pth[1][0] != 'idx' or pth[2][0] != 'idx':
+                    continue
+                last = pth[2][1]
+                is_last = last[0] == 'sub' and last[1][0] == 'len' and last[2] == ONE
+                same_link = any(x == lidx for x in walk(pth[1][1]))
+                if is_last and same_link:
+                    good = h
+            ctx.check(good is not None, R, key,
+                      'the train handed over is train_idx_curr() of the LAST authority of the list of the very link handed over (None once that train has cleared the link)',
+                      'the train argument %s is not DispAuth::train_idx_curr() of the last authority of link %s' % (show(tr, ca.names)[:160], show(la, ca.names)[:80]),
+                      ctx.where(cb, c.span))
+    ctx.floor('callers of update_links_blocked', n, 3)
+    # and what "current train" means: nobody once the authority's rear has cleared (offset_back = +inf), else the authority's train
+    hb = None
+    for fid in sorted(ctx.prog.by_id):
+        if fid.endswith('DispAuth::train_idx_curr'):
+            hb = ctx.prog.by_id[fid]
+    if hb is None:
+        ctx.unproved(R, 'DispAuth::train_idx_curr', 'anchor not found'); return
+    eng.all_paths.add(hb.fid)
+    ha = eng.analysis(hb)
+    r = ha.ret() if ha.exit_state is not None else None
+    me = lambda f: ('pre', (('obj', hb.params[0][0]), ('f', f)))
+    ok = r is not None and r[0] == 'gamma' and r[1][0] == 'eq' and me('offset_back') in r[1][1:] and any(x == ('sym', 'INF') for x in r[1][1:]) \
+        and r[2] == ('none',) and r[3] == me('train_idx')
+    ctx.check(ok, R, hb.fid, 'train_idx_curr() is None when offset_back = +inf, else the authority\'s train', 'returns %s' % (show(r, ha.names)[:200] if r else None), ctx.where(hb))
 
 
 def _block_of(an, path):
